@@ -151,13 +151,22 @@ func c14Check(w *c14World) []hbfs.Fail {
 	w.key = w.stateKey()
 	var out []hbfs.Fail
 	if w.fault != "" {
-		out = append(out, hbfs.Fail{Key: "C14:cleaner-program-fault", Msg: w.fault})
+		out = append(out, hbfs.Fail{Key: "C14:cleaner-program-fault" + w.fam(), Msg: w.fault})
 	}
 	for _, f := range w.fails {
 		out = append(out, hbfs.Fail{Key: f.Key, Msg: f.Msg})
 	}
 	if w.co.at != nil || len(out) > 0 {
 		return out
+	}
+	// Liveness, strong form for undisturbed histories: the exploration itself has enumerated every
+	// visiting order of the scan that just finished; with no packet, eviction or clock event at all,
+	// every entry that was idle past its timeout when the scan started must be gone after that ONE
+	// scan (whatever the order), and so must an orphaned forward entry.
+	if w.scans >= 1 && w.pUsed == 0 && w.tUsed == 0 {
+		if fs := w.idleLeft("after one undisturbed scan+cleaner pass (this visiting order)"); len(fs) > 0 {
+			return fs
+		}
 	}
 	// Liveness: with no further traffic, two complete scan + cleaner passes remove every entry that
 	// has been idle past its timeout (two: a forward entry whose reverse entry vanished during the
@@ -170,29 +179,36 @@ func c14Check(w *c14World) []hbfs.Fail {
 		out = append(out, hbfs.Fail{Key: f.Key, Msg: "during the quiescent epilogue: " + f.Msg})
 	}
 	if w.fault != "" {
-		out = append(out, hbfs.Fail{Key: "C14:cleaner-program-fault", Msg: w.fault})
+		out = append(out, hbfs.Fail{Key: "C14:cleaner-program-fault" + w.fam(), Msg: w.fault})
 	}
+	out = append(out, w.idleLeft("after two quiescent scan+cleaner passes")...)
+	return out
+}
+
+// idleLeft lists entries that are idle past their timeout (or orphaned forward entries) and still present.
+func (w *c14World) idleLeft(when string) []hbfs.Fail {
+	var out []hbfs.Fail
 	now := w.clock.now
 	for _, c := range w.conns {
 		tls, hasT := w.lastSeen(c.Key)
 		if hasT && now-tls > c.Timeout {
-			out = append(out, hbfs.Fail{Key: "C14:idle-entry-not-removed:" + c.Kind,
-				Msg: fmt.Sprintf("%s (last_seen %v, %v idle at now=%v, timeout %v) is still in the conntrack map after two quiescent scan+cleaner passes", w.keyName(c.Key.AsBytes()), tls, now-tls, now, c.Timeout)})
+			out = append(out, hbfs.Fail{Key: "C14:idle-entry-not-removed:" + c.Kind + w.fam(),
+				Msg: fmt.Sprintf("%s (last_seen %v, %v idle at now=%v, timeout %v) is still in the conntrack map %s", w.keyName(c.Key.AsBytes()), tls, now-tls, now, c.Timeout, when)})
 		}
 		if c.NAT {
 			if _, hasF := w.lastSeen(c.FwdKey); hasF && (!hasT || now-tls > c.Timeout) {
-				out = append(out, hbfs.Fail{Key: "C14:idle-nat-forward-entry-not-removed:" + c.Kind,
-					Msg: fmt.Sprintf("forward entry %s is still in the conntrack map after two quiescent passes although its reverse entry is %s", w.keyName(c.FwdKey.AsBytes()), map[bool]string{true: "idle past the timeout", false: "gone"}[hasT])})
+				out = append(out, hbfs.Fail{Key: "C14:idle-nat-forward-entry-not-removed:" + c.Kind + w.fam(),
+					Msg: fmt.Sprintf("forward entry %s is still in the conntrack map %s although its reverse entry is %s", w.keyName(c.FwdKey.AsBytes()), when, map[bool]string{true: "idle past the timeout", false: "gone"}[hasT])})
 			}
 		}
 	}
 	return out
 }
 
-func c14Spec(name string, prog *ebpf.Program, qk, qv int, init []c14Init, b c14Bounds, depth int, graph bool) *hbfs.Spec[*c14World, c14Ev] {
+func c14Spec(name string, ver int, prog *ebpf.Program, qk, qv int, init []c14Init, b c14Bounds, depth int, graph bool) *hbfs.Spec[*c14World, c14Ev] {
 	sp := &hbfs.Spec[*c14World, c14Ev]{
 		Name:     name,
-		New:      func() *c14World { return c14NewWorld(prog, qk, qv, init) },
+		New:      func() *c14World { return c14NewWorld(ver, prog, qk, qv, init) },
 		Apply:    c14Apply,
 		Enabled:  func(w *c14World, d int) []c14Ev { return c14Enabled(w, b) },
 		Check:    func(w *c14World, h []c14Ev) []hbfs.Fail { return c14Check(w) },
@@ -232,35 +248,40 @@ func TestVerif_C14(t *testing.T) {
 			c.ToolError(err.Error())
 			return
 		}
-		lay, err := ebpf.ReadLayout(filepath.Join(dir, "layout_v4.o"))
-		if err != nil {
-			c.ToolError(err.Error())
-			return
-		}
-		obj, err := ebpf.LoadELF(filepath.Join(dir, "ctclean_v4.o"))
-		if err != nil {
-			c.ToolError(err.Error())
-			return
-		}
-		prog, err := obj.WithEntry("conntrack_cleanup")
-		if err != nil {
-			c.ToolError(err.Error())
-			return
-		}
-		if _, ok := obj.Funcs["process_ccq_entry"]; !ok {
-			c.ToolError("conntrack_cleanup.o has no function process_ccq_entry")
-			return
-		}
-		qk, e1 := lay.Get("S_qos_key")
-		qv, e2 := lay.Get("S_qos_conn_val")
-		if e1 != nil || e2 != nil {
-			c.ToolError(fmt.Sprint(e1, e2))
-			return
-		}
-		// layout the harness relies on when it stamps last_seen directly
-		if o, _ := lay.Get("O_ct_value__last_seen"); o != 8 {
-			c.ToolError(fmt.Sprintf("offsetof(calico_ct_value,last_seen)=%d, harness assumes 8 (see C13)", o))
-			return
+		progs := map[int]*ebpf.Program{}
+		qk, qv := map[int]int{}, map[int]int{}
+		for _, ver := range []int{4, 6} {
+			lay, err := ebpf.ReadLayout(filepath.Join(dir, fmt.Sprintf("layout_v%d.o", ver)))
+			if err != nil {
+				c.ToolError(err.Error())
+				return
+			}
+			obj, err := ebpf.LoadELF(filepath.Join(dir, fmt.Sprintf("ctclean_v%d.o", ver)))
+			if err != nil {
+				c.ToolError(err.Error())
+				return
+			}
+			prog, err := obj.WithEntry("conntrack_cleanup")
+			if err != nil {
+				c.ToolError(err.Error())
+				return
+			}
+			if _, ok := obj.Funcs["process_ccq_entry"]; !ok {
+				c.ToolError("conntrack_cleanup.o has no function process_ccq_entry")
+				return
+			}
+			k, e1 := lay.Get("S_qos_key")
+			v, e2 := lay.Get("S_qos_conn_val")
+			if e1 != nil || e2 != nil {
+				c.ToolError(fmt.Sprint(e1, e2))
+				return
+			}
+			// layout the harness relies on when it stamps last_seen directly / reads the queued rev_key
+			if o, _ := lay.Get("O_ct_value__last_seen"); o != 8 {
+				c.ToolError(fmt.Sprintf("offsetof(calico_ct_value,last_seen)=%d, harness assumes 8 (see C13)", o))
+				return
+			}
+			progs[ver], qk[ver], qv[ver] = prog, int(k), int(v)
 		}
 		c.Rule("actors: U = real Scanner.Scan()+LivenessScanner advanced hook by hook (every visiting order of the conntrack keys, the reverse-entry Get, every processing order of the cleanup queue), K = real conntrack_cleanup.c interpreted one queue entry per step, P = forward/reverse packet on a connection, LRU eviction of any entry, re-creation, T = clock +2s; " +
 			"initial tables: every connection kind {udp, icmp, tcp syn-sent/established/fins/rst, NAT pair udp/tcp with equal or different leg timestamps, orphan forward, orphan reverse} x age {fresh, 1s under, 1s over the timeout}, alone and in pairs; bounds: scans, packets, clock steps per exploration (see extras). " +
@@ -302,6 +323,13 @@ func TestVerif_C14(t *testing.T) {
 			}
 			return strings.Join(p, "+")
 		}
+		run6 := func(s scen, b c14Bounds, depth int) {
+			if c.Expired() {
+				c.Capped("deadline before IPv6 scenario " + describe(s))
+				return
+			}
+			hbfs.Explore(c, c14Spec(fmt.Sprintf("C14[ipv6|%s|scans=%d,p=%d,t=%d|graph]", describe(s), b.maxScans, b.maxP, b.maxT), 6, progs[6], qk[6], qv[6], s.init, b, depth, true))
+		}
 		run := func(s scen, b c14Bounds, depth int, graph bool) {
 			if c.Expired() {
 				c.Capped("deadline before scenario " + describe(s))
@@ -311,17 +339,24 @@ func TestVerif_C14(t *testing.T) {
 			if !graph {
 				mode = "tree"
 			}
-			hbfs.Explore(c, c14Spec(fmt.Sprintf("C14[%s|scans=%d,p=%d,t=%d|%s]", describe(s), b.maxScans, b.maxP, b.maxT, mode), prog, int(qk), int(qv), s.init, b, depth, graph))
+			hbfs.Explore(c, c14Spec(fmt.Sprintf("C14[%s|scans=%d,p=%d,t=%d|%s]", describe(s), b.maxScans, b.maxP, b.maxT, mode), 4, progs[4], qk[4], qv[4], s.init, b, depth, graph))
 		}
 		if c.Quick() {
 			for _, s := range singles {
 				run(s, c14Bounds{maxScans: 1, maxP: 2, maxT: 1}, 12, true)
 			}
 			for _, s := range pairs[:2] {
-				run(s, c14Bounds{maxScans: 1, maxP: 1, maxT: 1}, 14, true)
+				run(s, c14Bounds{maxScans: 1, maxP: 1, maxT: 1}, 20, true)
 			}
 			run(singles[13], c14Bounds{maxScans: 1, maxP: 1, maxT: 1}, 6, false)
+			// IPv6 instance of the scanner (KeyV6/ValueV6, cleanupv1.ValueV6, conntrack_cleanup.c -DIPVER6)
+			for _, s := range []scen{{[]c14Init{{Kind: "udp", Age: "over"}}}, {[]c14Init{{Kind: "nat-udp", Age: "over"}}}, {[]c14Init{{Kind: "nat-udp", Age: "over", FwdOlder: true}}}, {[]c14Init{{Kind: "nat-tcp", Age: "over", NoFwd: true}}}} {
+				run6(s, c14Bounds{maxScans: 1, maxP: 1, maxT: 1}, 12)
+			}
 		} else {
+			for _, s := range singles {
+				run6(s, c14Bounds{maxScans: 2, maxP: 2, maxT: 1}, 22)
+			}
 			for _, s := range singles {
 				run(s, c14Bounds{maxScans: 2, maxP: 3, maxT: 2}, 22, true)
 				run(s, c14Bounds{maxScans: 1, maxP: 2, maxT: 1}, 8, false)
@@ -330,7 +365,7 @@ func TestVerif_C14(t *testing.T) {
 				run(s, c14Bounds{maxScans: 2, maxP: 2, maxT: 1}, 26, true)
 			}
 		}
-		w := c14NewWorld(prog, int(qk), int(qv), []c14Init{{Kind: "nat-udp", Age: "over", FwdOlder: true}})
+		w := c14NewWorld(4, progs[4], qk[4], qv[4], []c14Init{{Kind: "nat-udp", Age: "over", FwdOlder: true}})
 		c.Sample(map[string]any{"initial_table": w.dumpMap(w.ct.m), "example_history": []string{"S:start", "S:nat-udp#0.fwd", "S", "P:rev:nat-udp#0", "S:nat-udp#0.rev", "S:nat-udp#0.fwd"},
 			"meaning": "scan visits the forward entry (reads the reverse entry: expired), a reply packet refreshes the reverse entry, scan visits the reverse entry (not expired any more), cleaner processes the queued forward key"})
 	})
